@@ -1,6 +1,7 @@
 (* C04/ArrayRefine.v — one operation of the mechanism refines the operation on plain
    values; every other handle keeps its value; histories; corollaries. *)
-From MptV Require Import Base.Mem Base.Tactics C04.ArrayModel C04.ArraySpec C04.ArrayHeap C04.ArrayBuf C04.ArrayOps.
+From MptV Require Import Base.Mem Base.Tactics C04.ArrayModel C04.ArraySpec C04.ArrayHeap C04.ArrayBuf C04.ArrayOps
+  C04.ArrayTpl.
 Local Open Scope nat_scope.
 Local Open Scope bool_scope.
 
@@ -540,6 +541,17 @@ Proof.
     unfold s_xmks. keeps_tac.
   - unfold s_xshift. keeps_tac.
   - unfold s_xtrim. keeps_tac.
+  - destruct (tr =? 0); [reflexivity|]. apply L. unfold s_tnew. keeps_tac.
+  - destruct (negb _); [reflexivity|]. apply L. unfold s_tinsert. destruct (t_at _ _); keeps_tac.
+  - destruct (negb _); [reflexivity|]. apply L. unfold s_tstore. destruct (t_at _ _); keeps_tac.
+  - destruct (negb _); [reflexivity|]. apply L. unfold s_treserve. destruct (t_at _ _); keeps_tac.
+  - destruct (negb _); [reflexivity|]. apply L. unfold s_tresize. destruct (t_at _ _); [destruct len|]; keeps_tac.
+  - destruct (negb _); [reflexivity|]. apply L. unfold s_tdetach. keeps_tac.
+  - keeps_tac.
+  - destruct (negb _); [reflexivity|]. apply L. unfold s_pcompact. destruct v as [[t l]|]; keeps_tac.
+  - destruct (negb _); [reflexivity|]. apply L. unfold s_pswap. destruct p1, p2; keeps_tac.
+  - destruct (negb _); [reflexivity|]. apply L. unfold s_mset, s_tstore, s_tinsert.
+    destruct (find_key _ _ _ _ _ _); destruct (t_at _ _); keeps_tac.
 Qed.
 
 Lemma refused_unchanged_gen st o : step_ok st o ->
@@ -581,7 +593,9 @@ Qed.
 Definition array_op (o : op) : bool :=
   match o with
   | OMkSlice _ _ _ _ | OWrite _ _ _ _ _ | OXAssign _ _ | OXAppend _ _ | OXSet _ _ | OXSetStr _ _
-  | OXAssignSlice _ _ | OXMkSlice _ _ | OXShift _ _ | OXTrim _ _ => false
+  | OXAssignSlice _ _ | OXMkSlice _ _ | OXShift _ _ | OXTrim _ _
+  | OTNew _ _ _ _ | OTInsert _ _ _ _ _ | OTStore _ _ _ _ _ | OTReserve _ _ _ _ | OTResize _ _ _ _ | OTDetach _ _ _
+  | OTRead _ | OPCompact _ _ | OPSwap _ _ _ _ | OMSet _ _ _ _ _ => false
   | _ => true
   end.
 
@@ -960,6 +974,148 @@ Proof.
 Qed.
 
 
+(* ------------------------------------------------------------------ class templates of mptcore/array.h *)
+Lemma tpl_step st o x (gm : heap -> arr -> bool) (gs : sval -> bool) (r : heap -> arr -> ares)
+  (specf : hint -> sval -> sval * outcome) :
+  inv st -> target o = x -> is_slice_op o = false ->
+  (forall st, step st o =
+     if negb (x <? length (shnd st)) then (st, OGuard) else
+     if negb (Bool.eqb (hsl (hnd st x)) false) then (st, OGuard) else
+     if negb (gm (sheap st) (hbuf (hnd st x))) then (st, OGuard)
+     else fin st x false (r (sheap st) (hbuf (hnd st x)))) ->
+  (forall vs h, sstep vs o h =
+     if negb (x <? length vs) then (vs, OGuard) else
+     let '(k, v) := nth x vs (false, None) in
+     if negb (Bool.eqb k false) then (vs, OGuard) else
+     if negb (gs v) then (vs, OGuard) else (lset vs x (k, fst (specf h v)), snd (specf h v))) ->
+  (forall hp a, aok hp a -> gm hp a = gs (aval hp a)) ->
+  (forall h c v, specf (with_cons h c) v = specf h v) ->
+  (forall hp a cnt acc, aok hp a -> gm hp a = true ->
+     ares_ok hp a (r hp a) (specf (hint_at hp a cnt acc) (aval hp a)) false) ->
+  step_ok st o.
+Proof.
+  intros I Tx Sl Es Ss Gd Sc Sem.
+  destruct (Nat.ltb_spec x (length (shnd st))) as [Hx|Hx].
+  2:{ unfold step_ok. rewrite Es, (proj2 (Nat.ltb_ge _ _) Hx). cbn [negb].
+      rewrite Ss, abs_length, (proj2 (Nat.ltb_ge _ _) Hx). cbn [negb].
+      split; [discriminate|]. split; [exact I|reflexivity]. }
+  destruct (hsl (hnd st x)) eqn:Hs.
+  { unfold step_ok. rewrite Es, (proj2 (Nat.ltb_lt _ _) Hx), Hs. cbn [negb Bool.eqb].
+    rewrite Ss, abs_length, (proj2 (Nat.ltb_lt _ _) Hx), nth_abs. cbn [negb].
+    unfold absh. rewrite Hs. cbn [Bool.eqb negb].
+    split; [discriminate|]. split; [exact I|reflexivity]. }
+  pose proof (inv_aok st x I) as OK.
+  destruct (gm (sheap st) (hbuf (hnd st x))) eqn:G.
+  - eapply (arr_step st o false (r (sheap st) (hbuf (hnd st x))) (fun h => specf h (aval (sheap st) (hbuf (hnd st x)))));
+      rewrite ?Tx; auto.
+    + rewrite Es, (proj2 (Nat.ltb_lt _ _) Hx), Hs, G. reflexivity.
+    + intros h. rewrite Ss, abs_length, (proj2 (Nat.ltb_lt _ _) Hx), nth_abs, (absh_arr _ _ Hs).
+      cbn [negb Bool.eqb]. rewrite <- (Gd _ _ OK), G. reflexivity.
+  - unfold step_ok. rewrite Es, (proj2 (Nat.ltb_lt _ _) Hx), Hs, G. cbn [negb Bool.eqb].
+    split; [discriminate|]. split; [exact I|].
+    rewrite Ss, abs_length, (proj2 (Nat.ltb_lt _ _) Hx), nth_abs, (absh_arr _ _ Hs).
+    cbn [negb Bool.eqb]. rewrite <- (Gd _ _ OK), G. reflexivity.
+Qed.
+
+Lemma step_tnew st x tr uq n : inv st -> step_ok st (OTNew x tr uq n).
+Proof.
+  intros I.
+  apply (tpl_step st (OTNew x tr uq n) x (fun _ _ => negb (tr =? 0)) (fun _ => negb (tr =? 0))
+           (fun hp a => t_new hp a tr uq n) (fun _ _ => s_tnew tr)); auto.
+  - intros s. unfold step. cbn [target is_slice_op]. destruct (tr =? 0); reflexivity.
+  - intros vs h. unfold sstep. cbn [target is_slice_op]. destruct (nth x vs (false, None)) as [k v].
+    destruct (tr =? 0); reflexivity.
+  - intros. apply t_new_sem.
+Qed.
+
+Lemma step_tinsert st x tr uq pos d : inv st -> step_ok st (OTInsert x tr uq pos d).
+Proof.
+  intros I.
+  apply (tpl_step st (OTInsert x tr uq pos d) x (fun hp a => t_ok hp a tr && (length d =? tr))
+           (fun v => s_tok v tr && (length d =? tr))
+           (fun hp a => t_insert hp a tr uq pos d) (fun h v => s_tinsert h v tr pos d)); auto.
+  - intros hp a OK. rewrite (t_ok_aval hp a tr OK). reflexivity.
+  - intros hp a cnt acc OK G. apply andb_prop in G. destruct G as [G1 G2]. apply Nat.eqb_eq in G2.
+    apply t_insert_sem; assumption.
+Qed.
+
+Lemma step_tstore st x tr uq pos d : inv st -> step_ok st (OTStore x tr uq pos d).
+Proof.
+  intros I.
+  apply (tpl_step st (OTStore x tr uq pos d) x (fun hp a => t_ok hp a tr && (length d =? tr))
+           (fun v => s_tok v tr && (length d =? tr))
+           (fun hp a => t_store hp a tr uq pos 0 d) (fun h v => s_tstore h v tr pos 0 d)); auto.
+  - intros hp a OK. rewrite (t_ok_aval hp a tr OK). reflexivity.
+  - intros hp a cnt acc OK G. apply andb_prop in G. destruct G as [G1 G2]. apply Nat.eqb_eq in G2.
+    apply t_store_sem; auto. lia.
+Qed.
+
+Lemma step_treserve st x tr uq len : inv st -> step_ok st (OTReserve x tr uq len).
+Proof.
+  intros I.
+  apply (tpl_step st (OTReserve x tr uq len) x (fun hp a => t_ok hp a tr) (fun v => s_tok v tr)
+           (fun hp a => t_reserve hp a tr uq len) (fun h v => s_treserve h v tr len)); auto.
+  - intros hp a OK. apply t_ok_aval; assumption.
+  - intros hp a cnt acc OK G. apply t_reserve_sem; assumption.
+Qed.
+
+Lemma step_tresize st x tr uq len : inv st -> step_ok st (OTResize x tr uq len).
+Proof.
+  intros I.
+  apply (tpl_step st (OTResize x tr uq len) x (fun hp a => t_ok hp a tr) (fun v => s_tok v tr)
+           (fun hp a => t_resize hp a tr uq len) (fun h v => s_tresize h v tr len)); auto.
+  - intros hp a OK. apply t_ok_aval; assumption.
+  - intros hp a cnt acc OK G. apply t_resize_sem; assumption.
+Qed.
+
+Lemma step_tdetach st x tr uq : inv st -> step_ok st (OTDetach x tr uq).
+Proof.
+  intros I.
+  apply (tpl_step st (OTDetach x tr uq) x (fun hp a => t_ok hp a tr) (fun v => s_tok v tr)
+           (fun hp a => t_detach hp a tr uq) (fun h v => s_tdetach h v tr)); auto.
+  - intros hp a OK. apply t_ok_aval; assumption.
+  - intros hp a cnt acc OK G. apply t_detach_sem; assumption.
+Qed.
+
+Lemma step_pcompact st x tr : inv st -> step_ok st (OPCompact x tr).
+Proof.
+  intros I.
+  apply (tpl_step st (OPCompact x tr) x (fun hp a => t_ok hp a tr) (fun v => s_tok v tr)
+           (fun hp a => p_compact hp a tr) (fun h v => s_pcompact h v tr)); auto.
+  - intros hp a OK. apply t_ok_aval; assumption.
+  - intros hp a cnt acc OK G. apply p_compact_sem; assumption.
+Qed.
+
+Lemma step_pswap st x tr p1 p2 : inv st -> step_ok st (OPSwap x tr p1 p2).
+Proof.
+  intros I.
+  apply (tpl_step st (OPSwap x tr p1 p2) x (fun hp a => t_okb hp a tr) (fun v => s_tokb v tr)
+           (fun hp a => p_swap hp a tr false p1 p2) (fun h v => s_pswap h v tr p1 p2)); auto.
+  - intros hp a OK. apply t_okb_aval; assumption.
+  - intros hp a cnt acc OK G. apply p_swap_sem; assumption.
+Qed.
+
+Lemma step_mset st x ks tr key val : inv st -> step_ok st (OMSet x ks tr key val).
+Proof.
+  intros I.
+  apply (tpl_step st (OMSet x ks tr key val) x
+           (fun hp a => t_ok hp a tr && (length key =? ks) && (ks + length val =? tr))
+           (fun v => s_tok v tr && (length key =? ks) && (ks + length val =? tr))
+           (fun hp a => m_set hp a ks tr key val) (fun h v => s_mset h v ks tr key val)); auto.
+  - intros hp a OK. rewrite (t_ok_aval hp a tr OK). reflexivity.
+  - intros hp a cnt acc OK G. apply andb_prop in G. destruct G as [G12 G3]. apply andb_prop in G12. destruct G12 as [G1 G2].
+    apply Nat.eqb_eq in G2, G3. apply m_set_sem; assumption.
+Qed.
+
+(* get / offset / unused / map::get / map::values: nothing changes; what they return is a function of the value *)
+Lemma step_tread st x : inv st -> step_ok st (OTRead x).
+Proof.
+  intros I. arr_guards I st x Hx Hs.
+  unfold step_ok, step, sstep. cbn [target is_slice_op].
+  rewrite abs_length, (proj2 (Nat.ltb_lt _ _) Hx), Hs, nth_abs, (absh_arr _ _ Hs). cbn [negb Bool.eqb D fst snd vis].
+  split; [discriminate|]. split; [exact I|]. rewrite lset_abs_same by assumption. reflexivity.
+Qed.
+
 Theorem cow_step_all st o : inv st -> step_ok st o.
 Proof.
   intros I. destruct o;
@@ -967,7 +1123,8 @@ Proof.
                step_bufinsert, step_bufcut, step_bufset, step_new, step_flags,
                step_reserve, step_printf, step_string, step_mkslice, step_write,
                step_xassign, step_xappend, step_xset, step_xsetstr, step_xassign_slice, step_xmkslice,
-               step_xshift, step_xtrim.
+               step_xshift, step_xtrim, step_tnew, step_tinsert, step_tstore, step_treserve, step_tresize,
+               step_tdetach, step_tread, step_pcompact, step_pswap, step_mset.
 Qed.
 
 (* ------------------------------------------------------------------ the statements of Properties.v *)
@@ -1004,4 +1161,48 @@ Theorem ref_inv ops n m :
 Proof.
   destruct (cow_histories ops (init n m) (init_inv n m)) as [_ F].
   eapply Forall_impl; [|exact F]. intros r [_ I] i b E. apply ref_inv_of_inv; assumption.
+Qed.
+
+(* ------------------------------------------------------------------ the class templates in plain vector terms *)
+(* get / offset / unused / map::get / map::values do not change the state *)
+Theorem tpl_read_only st x : fst (step st (OTRead x)) = st.
+Proof.
+  unfold step. cbn [target is_slice_op].
+  destruct (negb (x <? length (shnd st))); [reflexivity|].
+  destruct (negb (Bool.eqb (hsl (hnd st x)) false)); reflexivity.
+Qed.
+
+(* what a handle reads is the byte vector of its value: every read-only method is a function of the value *)
+Theorem view_is_value st x : view st x = svec (snd (nth x (abs st) (false, None))).
+Proof. apply view_abs. Qed.
+
+(* typed_array<T>::insert(pos, value) / unique_array<T>::insert(pos): the handle reads the vector with the element
+   inserted at element position p (gap zero filled, nothing lost behind it), or the call is refused and the handle
+   reads what it read before; a position before the first element is refused *)
+Theorem tpl_insert_value st x tr uq pos d :
+  inv st -> x < length (shnd st) -> hsl (hnd st x) = false ->
+  t_ok (sheap st) (hbuf (hnd st x)) tr = true -> length d = tr ->
+  let '(st', out) := step st (OTInsert x tr uq pos d) in
+  match t_at (length (view st x) / tr) pos with
+  | None => out = ORefused /\ view st' x = view st x
+  | Some p => (accepted out = true /\ view st' x = ins (view st x) (p * tr) d) \/
+              (out = ORefused /\ view st' x = view st x)
+  end.
+Proof.
+  intros I Hx Hs T Ld. pose proof (cow_step_all st (OTInsert x tr uq pos d) I) as S. unfold step_ok in S.
+  destruct (step st (OTInsert x tr uq pos d)) as [st' out]. destruct S as [_ [_ E]].
+  unfold sstep in E. cbn [target is_slice_op] in E.
+  rewrite abs_length, (proj2 (Nat.ltb_lt _ _) Hx), nth_abs, (absh_arr _ _ Hs) in E. cbn [negb Bool.eqb] in E.
+  rewrite <- (t_ok_aval _ _ tr (inv_aok st x I)), T, Ld, Nat.eqb_refl in E. cbn [andb negb] in E.
+  assert (Vx : view st x = svec (aval (sheap st) (hbuf (hnd st x)))).
+  { rewrite view_abs, nth_abs, (absh_arr _ _ Hs). reflexivity. }
+  assert (V' : forall w o, (lset (abs st) x (false, w), o) = (abs st', vis out) -> view st' x = svec w /\ vis out = o).
+  { intros w o H. inversion H as [[H1 H2]]. split; [|reflexivity]. rewrite view_abs, <- H1, nth_lset, Nat.eqb_refl.
+    rewrite abs_length, (proj2 (Nat.ltb_lt _ _) Hx). reflexivity. }
+  rewrite Vx. unfold s_tinsert in E.
+  destruct (t_at (length (svec (aval (sheap st) (hbuf (hnd st x)))) / tr) pos) as [p|].
+  - destruct (blocked _ _); cbn [R D fst snd] in E.
+    + right. destruct (V' _ _ E) as [V O]. split; [destruct out; cbn [vis] in O; congruence|exact V].
+    + left. destruct (V' _ _ E) as [V O]. split; [destruct out; cbn [vis] in O; try discriminate; reflexivity|exact V].
+  - cbn [R D fst snd] in E. destruct (V' _ _ E) as [V O]. split; [destruct out; cbn [vis] in O; congruence|exact V].
 Qed.
